@@ -415,6 +415,12 @@ Proof.
   apply Forall_map. exact F.
 Qed.
 
+(** below the watermark nothing is pre-selected: what the user deselected stays deselected while
+    re-filtering keeps the list shorter than the longest one seen *)
+Lemma below_watermark s b : presel_applies s b = false ->
+  selected (append_sorted_items s b) = selected s.
+Proof. intros H. destruct (append_selected s b) as (H1 & _). rewrite H1, H. reflexivity. Qed.
+
 Lemma single_set_empty rev k : forall ops s, run_ops (init_sel rev false k) ops = Some s -> multi s = false /\ selected s = [].
 Proof.
   intros ops s E.
